@@ -50,6 +50,7 @@ type rFault struct {
 }
 
 type rCase struct {
+	Special string `json:"special,omitempty"` // hand-shaped reference cycles through /Length
 	// one of
 	Toks   []string `json:"toks,omitempty"`
 	Graph  [][]int  `json:"graph,omitempty"`
@@ -436,9 +437,47 @@ func siteCount(fmtName string, b []byte, kind string) int {
 		return len(pdfSites(b, kind))
 	}
 	if fmtName == "html" {
+		switch kind {
+		case "number":
+			return len(reInt.FindAllIndex(b, -1))
+		case "unbalance":
+			n := 0
+			for _, ch := range b {
+				if ch == '<' || ch == '>' || ch == '"' {
+					n++
+				}
+			}
+			return n
+		}
 		return len(b)
 	}
-	return 64
+	ms, err := readZip(b)
+	if err != nil {
+		return 1
+	}
+	n := 0
+	for _, m := range ms {
+		if !isXMLMember(m.name) {
+			continue
+		}
+		switch kind {
+		case "number":
+			n += len(reInt.FindAllIndex(m.data, -1))
+		case "unbalance":
+			for _, ch := range m.data {
+				if ch == '<' || ch == '>' || ch == '"' {
+					n++
+				}
+			}
+		}
+	}
+	if kind == "dropmember" || kind == "dupmember" || kind == "corruptstream" {
+		n = len(ms)
+	}
+	if n == 0 {
+		n = 1
+	}
+	return n
 }
 
 // ------------------------------------------------------------ entry points
@@ -577,6 +616,60 @@ func graphPDFs(g [][]int) (map[string][]byte, error) {
 	return out, nil
 }
 
+// specialPDFs: reference cycles that run through stream /Length entries.
+//
+//	lenstm    an object stream whose /Length is an indirect reference to a member of that same
+//	          object stream (loading the member needs the stream, parsing the stream needs the member);
+//	          variants: the member is the catalog's neighbour / the length holder is the first or last member
+//	len2cycle two content streams whose /Length entries refer to each other's stream object
+func specialPDFs(kind string) ([][]byte, error) {
+	var out [][]byte
+	page := func(contents pdfw.Obj) pdfw.Dict {
+		return pdfw.Dict{{"Type", pdfw.Name("Page")}, {"Parent", pdfw.Ref{Num: 4}}, {"MediaBox", pdfw.Arr{pdfw.Int(0), pdfw.Int(0), pdfw.Int(200), pdfw.Int(200)}}, {"Contents", contents}}
+	}
+	switch kind {
+	case "lenstm":
+		for variant := 0; variant < 2; variant++ {
+			members := []pdfw.Member{
+				{Num: 3, Val: pdfw.Dict{{"Type", pdfw.Name("Catalog")}, {"Pages", pdfw.Ref{Num: 4}}}},
+				{Num: 4, Val: pdfw.Dict{{"Type", pdfw.Name("Pages")}, {"Kids", pdfw.Arr{pdfw.Ref{Num: 5}}}, {"Count", pdfw.Int(1)}}},
+				{Num: 5, Val: page(pdfw.Ref{Num: 6})},
+			}
+			lh := pdfw.Member{Num: 2, Val: pdfw.Int(120)}
+			if variant == 0 {
+				members = append([]pdfw.Member{lh}, members...)
+			} else {
+				members = append(members, lh)
+			}
+			f := &pdfw.File{EOL: "lf"}
+			f.Revs = []pdfw.Revision{{XRef: "stream", Root: pdfw.Ref{Num: 3}, XRefNum: 7, W: [3]int{1, 3, 2},
+				Items: []pdfw.Item{{Num: 6, Stm: &pdfw.Stream{Data: []byte("BT /F1 12 Tf 10 10 Td (x) Tj ET")}},
+					{Num: 1, IsObjStm: true, Members: members, StmLenRef: 2}}}}
+			b, _, err := f.Bytes()
+			if err != nil {
+				return nil, err
+			}
+			out = append(out, b)
+		}
+	case "len2cycle":
+		f := &pdfw.File{EOL: "lf"}
+		f.Revs = []pdfw.Revision{{XRef: "table", Root: pdfw.Ref{Num: 3},
+			Items: []pdfw.Item{{Num: 3, Val: pdfw.Dict{{"Type", pdfw.Name("Catalog")}, {"Pages", pdfw.Ref{Num: 4}}}},
+				{Num: 4, Val: pdfw.Dict{{"Type", pdfw.Name("Pages")}, {"Kids", pdfw.Arr{pdfw.Ref{Num: 5}}}, {"Count", pdfw.Int(1)}}},
+				{Num: 5, Val: page(pdfw.Arr{pdfw.Ref{Num: 6}, pdfw.Ref{Num: 7}})},
+				{Num: 6, Stm: &pdfw.Stream{Data: []byte("BT (a) Tj ET "), LengthRef: 7}},
+				{Num: 7, Stm: &pdfw.Stream{Data: []byte("BT (b) Tj ET "), LengthRef: 6}}}}}
+		b, _, err := f.Bytes()
+		if err != nil {
+			return nil, err
+		}
+		out = append(out, b)
+	default:
+		return nil, fmt.Errorf("unknown special %s", kind)
+	}
+	return out, nil
+}
+
 // ------------------------------------------------------------ one case (child side)
 
 type caseResult struct {
@@ -602,6 +695,22 @@ func c02RunCase(idx int, c *rCase, announce func(sub int)) caseResult {
 		dir = os.TempDir()
 	}
 	switch {
+	case c.Special != "":
+		files, err := specialPDFs(c.Special)
+		if err != nil {
+			res.Calls = append(res.Calls, callOutcome{Entry: "writer", Outcome: "machinery", Detail: err.Error()})
+			return res
+		}
+		res.Faulty = true
+		for k, data := range files {
+			p := filepath.Join(dir, fmt.Sprintf("c02-%d-%d-s%d.pdf", os.Getpid(), idx, k))
+			os.WriteFile(p, data, 0o644)
+			for _, o := range runEntries(p, data) {
+				o.Entry = fmt.Sprintf("%s%d:%s", c.Special, k, o.Entry)
+				res.Calls = append(res.Calls, o)
+			}
+			os.Remove(p)
+		}
 	case c.Toks != nil:
 		b := renderToks(c.Toks)
 		res.Faulty = true
@@ -835,7 +944,9 @@ func c02Judge(i int, raw []byte, r *caseResult) Result {
 		res.Evals = r.Sites * 11
 	}
 	kind := "tokens"
-	if c.Graph != nil {
+	if c.Special != "" {
+		kind = c.Special
+	} else if c.Graph != nil {
 		kind = "graph"
 	} else if c.Fmt != "" {
 		kind = c.Fmt
